@@ -66,6 +66,21 @@ func pathsN(forms []gen.Step, n int) []*gen.Path {
 	return out
 }
 
+// threeStep: every 3-step path over the 12 axes with tests {node(), a} joined
+// by '/', relative and absolute-with-//.
+func threeStep() []*gen.Path {
+	forms := stepForms([]string{"node()", "a"}, false)
+	var out []*gen.Path
+	for _, a := range forms {
+		for _, b := range forms {
+			for _, c := range forms {
+				out = append(out, relPath(a, b, c), gen.AbsP(gen.DSlash(), a, b, c))
+			}
+		}
+	}
+	return out
+}
+
 // evalCfg says how a list of expressions is explored.
 type evalCfg struct {
 	Prop   string
@@ -265,7 +280,7 @@ func init() {
 		ID: "C01", Level: "exploration",
 		Rule: "every predicate-free path of a named finite slice (12 axes x 6 node tests + abbreviations, separators / and //, relative and absolute) is evaluated by Select and Evaluate on every document of the tree universe from every context node (root, elements, attributes, text, comments) and compared as a set of node identities with the reference XPath 1.0 denotation; a case is non-trivial when the reference denotation is non-empty; distinct = distinct path expressions with at least one non-trivial case",
 		Assumptions: []string{"hand-written reference evaluator (self-checked by axis partition laws)", "lawful NodeNavigator (doc.Nav)", "bounds: documents with <= N content nodes over names {a,b}, attributes {a,x}"},
-		Budget:         budget(55*time.Second, 12*time.Minute),
+		Budget:         budget(100*time.Second, 12*time.Minute),
 		MinRefOutcomes: 2,
 		Spaces: func(tier string) []*explore.Space {
 			forms := stepForms(allTests, true)
@@ -282,6 +297,7 @@ func init() {
 			return []*explore.Space{
 				pathSpace("C01", "S1xT3", "1-step paths x T(<=3)", pathsN(forms, 1), func() []*doc.Tree { return uniT(3) }, both, "set"),
 				pathSpace("C01", "S2xT3", "2-step paths x T(<=3)", pathsN(forms, 2), func() []*doc.Tree { return uniT(3) }, both, "set"),
+				pathSpace("C01", "S3qxT3", "3-step paths over 12 axes x tests {node(), a}, '/' separators, relative and after // x T(<=3)", threeStep(), func() []*doc.Tree { return uniT(3) }, []string{"select"}, "set"),
 			}
 		},
 	})
